@@ -108,6 +108,8 @@ type Exec struct {
 	localUnsat  int
 	solGen      int
 	standaloneQ, standaloneOK int
+	xcheckN, xcheckAgree, xcheckDisagree, xcheckUndecided int // sampled cross-checks of incremental answers by other solvers
+	queryCount  int
 	standaloneT time.Duration
 	scaled      map[*Term]*Term
 	timeAssumes int
@@ -293,6 +295,11 @@ func (ex *Exec) checkWith(extra *Term) (Result, *Model) {
 	if r == Unknown {
 		// not decided incrementally within the soft timeout: portfolio
 		r, m = ex.Standalone(extra, 120)
+	} else if xcheckEvery > 0 {
+		ex.queryCount++
+		if ex.queryCount%xcheckEvery == 0 {
+			ex.crossCheck(extra, r)
+		}
 	}
 	return r, m
 }
